@@ -57,6 +57,21 @@ def litmus_shapes():
                 "name": "spawn-edge-publishes-earlier-writes-only", "tags": ["litmus"]})
     out.append({"threads": [[spawn(2), ld("y", "acq"), fence("acq"), spawn(3), join(2), join(3)], [st("z", 1), st("y", 1, "rel")], [ld("z")]],
                 "name": "spawn-after-acquire", "tags": ["litmus"]})
+    # two SeqCst fences in threads that share no location, a third thread reads: a fence releases what its OWN thread has seen
+    # up to the fence, not what an SC-earlier fence of another thread had seen (fences are no scheduling points: loom runs them
+    # in one order only, all outcomes must come out of that order)
+    for rd_in_main in (False, True):
+        t1 = [st("a", 1), fence("sc"), st("c", 1)]
+        t2 = [fence("sc"), st("b", 1)]
+        rdr = [ld("c"), ld("b", "acq"), ld("a")]
+        for order in ((t1, t2), (t2, t1)):
+            if rd_in_main:
+                out.append({"threads": [[spawn(2), spawn(3)] + rdr + [join(2), join(3)], list(order[0]), list(order[1])],
+                            "name": f"sc-fences-3loc-main[{'12' if order[0] is t1 else '21'}]", "tags": ["litmus"]})
+            else:
+                add(f"sc-fences-3loc[{'12' if order[0] is t1 else '21'}]", [list(order[0]), list(order[1]), rdr])
+    add("sc-fence-then-acqrel-fence-3loc", [[st("a", 1), fence("sc"), st("c", 1)], [fence("acqrel"), st("b", 1)], [ld("c"), ld("b", "acq"), ld("a")]])
+    add("sc-fences-3loc-rel-stores", [[st("a", 1), fence("sc"), st("c", 1, "rel")], [fence("sc"), st("b", 1, "rel")], [ld("c", "acq"), ld("b", "acq"), ld("a")]])
     # store buffering
     for (w1, r1), (w2, r2) in itertools.product([("rlx", "rlx"), ("rel", "acq"), ("sc", "sc")], repeat=2):
         add(f"SB[{w1},{r1};{w2},{r2}]", [[st("x", 1, w1), ld("y", r1)], [st("y", 1, w2), ld("x", r2)]])
@@ -66,6 +81,11 @@ def litmus_shapes():
     for r, w in [("rlx", "rlx"), ("acq", "rel")]:
         add(f"LB[{r},{w}]", [[ld("x", r), st("y", 1, w)], [ld("y", r), st("x", 1, w)]])
     # coherence
+    # read-read coherence carried over happens-before, with the publishing thread looking at the store AGAIN afterwards
+    add("CoRR-hb-reread", [[st("x", 1)], [ld("x"), br(1, 1, 2), st("y", 1, "rel"), ld("x")], [ld("y", "acq"), ld("x")]])
+    add("CoRR-hb-recas", [[st("x", 1)], [ld("x"), br(1, 1, 2), st("y", 1, "rel"), cas("x", 5, 6)], [ld("y", "acq"), ld("x")]])
+    add("CoRR-hb-refadd", [[st("x", 1)], [ld("x"), br(1, 1, 2), st("y", 1, "rel"), ld("x"), ld("x")], [ld("y", "acq"), ld("x"), ld("x")]])
+    add("CoRR-hb-reread-fence", [[st("x", 1)], [ld("x"), br(1, 1, 3), fence("rel"), st("y", 1), ld("x")], [ld("y"), fence("acq"), ld("x")]])
     add("CoRR", [[st("x", 1)], [st("x", 2)], [ld("x"), ld("x")]], ["x"])
     add("CoRR-acq", [[st("x", 1, "rel")], [st("x", 2, "rel")], [ld("x", "acq"), ld("x", "acq")]], ["x"])
     add("CoWR", [[st("x", 1), ld("x")], [st("x", 2)]], ["x"])
